@@ -9,6 +9,33 @@ def _builders():
     return T
 
 
+_CACHE = {}
+
+
+def warm():
+    """Concrete sub-configurations that the contracts only pass along are built ONCE, outside CrossHair's tracing
+    (tracing executes every Python bytecode of the builders symbolically-aware and is ~50x slower)."""
+    T = _builders()
+    if _CACHE:
+        return
+    _CACHE["dc"] = T.get_data_config(train_labels_path="a.slp", val_labels_path="b.slp")
+    _CACHE["tc"] = T.get_trainer_config()
+    for bb, hd in (("unet", "single_instance"), ("convnext", "centered_instance"), ("unet", "centroid"), ("swint", "bottomup"), ("unet", "bottomup")):
+        _CACHE[("mc", bb, hd)] = T.get_model_config(backbone_config=bb, head_configs=hd)
+
+
+def _dc():
+    return _CACHE["dc"] if "dc" in _CACHE else _builders().get_data_config(train_labels_path="a.slp", val_labels_path="b.slp")
+
+
+def _tc():
+    return _CACHE["tc"] if "tc" in _CACHE else _builders().get_trainer_config()
+
+
+def _mc(bb, hd):
+    return _CACHE[("mc", bb, hd)] if ("mc", bb, hd) in _CACHE else _builders().get_model_config(backbone_config=bb, head_configs=hd)
+
+
 GEO = ("rotation", "scale", "translate", "erase_scale", "mixup")
 INT = ("uniform_noise", "gaussian_noise", "contrast", "brightness")
 
@@ -70,7 +97,7 @@ def data_args_reach_their_place_a(scale: float, max_height: int, max_width: int,
     """
     T = _builders()
     dc = T.get_data_config(train_labels_path="a.slp", val_labels_path="b.slp", scale=scale, max_height=max_height, max_width=max_width, is_rgb=is_rgb)
-    c = _full(dc, T.get_model_config(backbone_config="unet", head_configs="single_instance"), T.get_trainer_config())
+    c = _full(dc, _mc("unet", "single_instance"), _tc())
     p = c.data_config.preprocessing
     d = c.data_config
     return (p.scale == scale and p.max_height == max_height and p.max_width == max_width and p.is_rgb == is_rgb and d.train_labels_path == "a.slp"
@@ -85,7 +112,7 @@ def data_args_reach_their_place_b(chunk_size: int, min_crop_size: int, user_only
     T = _builders()
     dc = T.get_data_config(train_labels_path="a.slp", val_labels_path="b.slp", chunk_size=chunk_size, min_crop_size=min_crop_size, user_instances_only=user_only,
                            delete_chunks_after_training=delete_chunks)
-    c = _full(dc, T.get_model_config(backbone_config="convnext", head_configs="centered_instance"), T.get_trainer_config())
+    c = _full(dc, _mc("convnext", "centered_instance"), _tc())
     d = c.data_config
     return (d.chunk_size == chunk_size and d.preprocessing.min_crop_size == min_crop_size and d.user_instances_only == user_only and d.delete_chunks_after_training == delete_chunks
             and d.preprocessing.scale == 1.0 and d.preprocessing.is_rgb is False)
@@ -98,7 +125,7 @@ def trainer_args_reach_their_place_a(batch_size: int, num_workers: int, top_k: i
     """
     T = _builders()
     tc = T.get_trainer_config(batch_size=batch_size, shuffle_train=shuffle, num_workers=num_workers, ckpt_save_top_k=top_k, ckpt_save_last=save_last)
-    c = _full(T.get_data_config(train_labels_path="a.slp", val_labels_path="b.slp"), T.get_model_config(backbone_config="unet", head_configs="centroid"), tc).trainer_config
+    c = _full(_dc(), _mc("unet", "centroid"), tc).trainer_config
     return (c.train_data_loader.batch_size == batch_size and c.val_data_loader.batch_size == batch_size and c.train_data_loader.shuffle == shuffle
             and c.train_data_loader.num_workers == num_workers and c.val_data_loader.num_workers == num_workers and c.model_ckpt.save_top_k == top_k
             and c.model_ckpt.save_last == save_last)
@@ -111,7 +138,7 @@ def trainer_args_reach_their_place_b(max_epochs: int, seed: int) -> bool:
     """
     T = _builders()
     tc = T.get_trainer_config(max_epochs=max_epochs, seed=seed)
-    c = _full(T.get_data_config(train_labels_path="a.slp", val_labels_path="b.slp"), T.get_model_config(backbone_config="swint", head_configs="bottomup"), tc).trainer_config
+    c = _full(_dc(), _mc("swint", "bottomup"), tc).trainer_config
     return c.max_epochs == max_epochs and c.seed == seed and c.optimizer_name == "Adam"
 
 
@@ -122,7 +149,7 @@ def trainer_args_reach_their_place_d(lr: float, amsgrad: bool) -> bool:
     """
     T = _builders()
     tc = T.get_trainer_config(learning_rate=lr, amsgrad=amsgrad)
-    c = _full(T.get_data_config(train_labels_path="a.slp", val_labels_path="b.slp"), T.get_model_config(backbone_config="unet", head_configs="single_instance"), tc).trainer_config
+    c = _full(_dc(), _mc("unet", "single_instance"), tc).trainer_config
     return c.optimizer.lr == lr and c.optimizer.amsgrad == amsgrad
 
 
@@ -133,7 +160,7 @@ def trainer_args_reach_their_place_c(min_delta: float, patience: int, early: boo
     """
     T = _builders()
     tc = T.get_trainer_config(early_stopping=early, early_stopping_min_delta=min_delta, early_stopping_patience=patience)
-    c = _full(T.get_data_config(train_labels_path="a.slp", val_labels_path="b.slp"), T.get_model_config(backbone_config="unet", head_configs="centroid"), tc).trainer_config
+    c = _full(_dc(), _mc("unet", "centroid"), tc).trainer_config
     return c.early_stopping.stop_training_on_plateau == early and c.early_stopping.min_delta == min_delta and c.early_stopping.patience == patience
 
 
@@ -145,7 +172,7 @@ def backbone_dict_reaches_its_place_a(in_channels: int, filters: int) -> bool:
     T = _builders()
     mc = T.get_model_config(backbone_config={"unet": {"in_channels": in_channels, "filters": filters, "max_stride": 16, "output_stride": 2}},
                             head_configs={"single_instance": {"confmaps": {"part_names": None, "sigma": 2.5, "output_stride": 2}}})
-    c = _full(T.get_data_config(train_labels_path="a.slp", val_labels_path="b.slp"), mc, T.get_trainer_config()).model_config
+    c = _full(_dc(), mc, _tc()).model_config
     u = c.backbone_config.unet
     return (u.in_channels == in_channels and u.filters == filters and u.max_stride == 16 and u.output_stride == 2 and c.backbone_config.convnext is None
             and c.backbone_config.swint is None and c.head_configs.single_instance.confmaps.sigma == 2.5 and c.head_configs.centroid is None and c.head_configs.bottomup is None)
@@ -159,7 +186,7 @@ def backbone_dict_reaches_its_place_b(max_stride: int, output_stride: int) -> bo
     T = _builders()
     mc = T.get_model_config(backbone_config={"unet": {"in_channels": 1, "filters": 32, "max_stride": max_stride, "output_stride": output_stride}},
                             head_configs={"centroid": {"confmaps": {"anchor_part": None, "sigma": 1.5, "output_stride": output_stride}}})
-    c = _full(T.get_data_config(train_labels_path="a.slp", val_labels_path="b.slp"), mc, T.get_trainer_config()).model_config
+    c = _full(_dc(), mc, _tc()).model_config
     u = c.backbone_config.unet
     return (u.max_stride == max_stride and u.output_stride == output_stride and c.head_configs.centroid.confmaps.output_stride == output_stride
             and c.head_configs.centroid.confmaps.sigma == 1.5 and c.head_configs.single_instance is None)
@@ -173,7 +200,7 @@ def normalisation_is_idempotent(scale: float, batch_size: int) -> bool:
     from sleap_nn.config.training_job_config import verify_training_cfg
     T = _builders()
     c1 = _full(T.get_data_config(train_labels_path="a.slp", val_labels_path="b.slp", scale=scale),
-               T.get_model_config(backbone_config="unet", head_configs="bottomup"), T.get_trainer_config(batch_size=batch_size))
+               _mc("unet", "bottomup"), T.get_trainer_config(batch_size=batch_size))
     c2 = verify_training_cfg(c1)
     return (c2.data_config.preprocessing.scale == scale and c2.trainer_config.train_data_loader.batch_size == batch_size and c2.trainer_config.val_data_loader.batch_size == batch_size
             and c1.data_config.preprocessing.scale == scale and set(c1.keys()) == set(c2.keys()) and c2.model_config.head_configs.bottomup is not None
